@@ -62,7 +62,7 @@ RUNTIME_NOTE = ("Partial with respect to the Go runtime: goroutines are interlea
                 "such an operation, the Go memory model and the garbage collector are not modelled. Race-freedom is argued from regenerated syntactic facts "
                 "and observed with the race detector in the thorough tier, not proved.")
 PROPS["C10"] = {
-    "families": ["C10"], "modules": ["C10", "C10b", "C10c"],
+    "families": ["C10"], "modules": ["C10", "C10b", "C10c", "C10d"],
     "gen_deps": [],
     "race": True,
     "rule": "real util.MessageStream driven through NewMessageStream with a scripted in-memory connection and a recording parser (or the real "
@@ -154,9 +154,19 @@ PROPS["C03"] = {
     "level_note": OF_NOTE + " Known finding D44 (port-stats / queue-stats request port_no is 16 bits wide in the struct).",
     "assumptions": COMMON_ASSUMPTIONS,
 }
+# functions whose regenerated bodies the C06d theorems are stated over (tie T1): leaving the translated subset breaks C06
+C06D_GEN = (["common.Header.Len", "common.HelloElemHeader.Len", "protocol.VLAN.Len", "openflow13.NewLearnHeader"]
+            + ["openflow13.%s.Len" % k for k in """
+    ActionHeader ActionOutput ActionSetqueue ActionGroup ActionMplsTtl ActionDecNwTtl ActionNwTtl ActionPush ActionPopVlan ActionPopMpls BundleControl
+    InstrHeader InstrGotoTable InstrWriteMetadata InstrMeter InPortField EthDstField EthSrcField EthTypeField VlanIdField MplsLabelField MplsBosField
+    Ipv4SrcField Ipv4DstField Ipv6SrcField Ipv6DstField IPv6FlowLabelField IpProtoField IpDscpField TunnelIdField MetadataField PortField TcpFlagsField
+    ArpOperField TunnelIpv4SrcField TunnelIpv4DstField ArpXHaField ArpXPaField ActsetOutputField IcmpTypeField IcmpCodeField DescStats AggregateStats
+    TableStats PortStatsRequest PortStats QueueStatsRequest QueueStats NXActionHeader NXActionConjunction NXActionRegLoad NXActionRegMove NXActionResubmit
+    NXActionResubmitTable NXActionCTNAT NXActionOutputReg NXActionCTClear NXActionDecTTL NXActionDecTTLCntIDs NXLearnSpecHeader NXLearnSpecField
+    NXLearnSpec NXActionController Uint16Message Uint32Message ByteArrayField CTLabel ControllerID TLVTableMap SwitchConfig""".split()])
 PROPS["C06"] = {
-    "modules": ["C06", "C06b", "C06c"],
-    "families": ["OF"], "ops": "api,apix,enc,prog,embed,embedw,rtrip,rtparse,rtw,dhcpsz", "gen_deps": [],
+    "modules": ["C06", "C06b", "C06c", "C06d"],
+    "families": ["OF"], "ops": "api,apix,enc,prog,embed,embedw,rtrip,rtparse,rtw,dhcpsz", "gen_deps": C06D_GEN,
     "rule": ENC_RULE, "trivial_outputs": ["panic", "err"],
     "level_text": "Theorems: fill_exact / fill_length — the make(Len())+copy idiom returns exactly Len() bytes and, when the pieces fit, their concatenation plus zero padding (the general lemma every container theorem instantiates); all 30 match-payload kinds: size = encoding length and neither call modifies the value; match field and match: encoding length = reported size for any content, match size multiple of 8. Oracle: reported size before and after encoding = bytes produced, on every API-built value of every kind. C06b (≈ 100 theorems): the same for every OpenFlow action, instruction, bucket and message kind incl. the containers (children embedded intact). C06c (≈ 85 theorems): size = bytes for EVERY value of every packet kind (VLAN, Ethernet, ARP, IPv4, ICMP, UDP, TCP, IPv6 and its extension headers, IGMP, DHCP, LLDP) through the payload dispatch at every depth, and children-intact for every container under its exact consistency condition (IHL·4 = 20 + |options|, 8·(HEL+1) = 2 + Σ option sizes, …) with a concrete witness that each condition is necessary. Oracles also on the values the decoders build (rtrip / rtparse / rtw) and on packet headers (embed / embedw).",
     "level_note": OF_NOTE,
@@ -219,7 +229,7 @@ PROPS["C13"] = {
 }
 
 PROPS["C05"] = {
-    "families": ["OF"], "ops": "rtrip,rtparse,rtw,rtx,enc,dec", "gen_deps": [], "modules": ["C05", "C05b", "C05c"],
+    "families": ["OF"], "ops": "rtrip,rtparse,rtw,rtx,enc,dec", "gen_deps": [], "modules": ["C05", "C05b", "C05c", "C05d"],
     "rule": "rtrip / rtparse: every API-built value (every kind; valid histories incl. bundle-add wrapping any message) is encoded, the bytes are followed by 8 other bytes inside a larger backing array, decoded by the kind's "
             "own decoder (elements) or by openflow13.Parse (top-level messages), and re-encoded: the re-encoding must equal the encoding and the reported size its length; rtx: the same on literal values (correspondence only); "
             "dec: decoders on captured encodings with truncations / corruptions (correspondence). Non-trivial = the value was encoded.",
@@ -247,6 +257,14 @@ PROPS["C10"]["level_text"] += (" C10c (frame locality, 23 statements over ~180 l
     "extension headers, ICMP, TCP, UDP, IGMP, DHCP options), matches and all match-field payloads, and for Parse on every message kind except flow-mod and "
     "multipart reply (experimenter frames whose declared length fits the slice); with PROVED counterexamples where it is false (a header on 4..7 bytes, a vendor "
     "frame shorter than its own length field, and a TLV-table reply whose body is shorter than 16 bytes: its reserved field is filled from the bytes behind the frame).")
+PROPS["C10"]["level_text"] += (" C10d (regenerated facts): util/stream.go has exactly one send site on the Error channel, one conn.Read site and one "
+    "reader goroutine, one parser call followed by the one send on Inbound, one hand-over site for full buffers and one recycle site after the one Reset — the "
+    "premises under which the transition systems are an accurate picture (a second publication site, as in seed C10h, breaks the theorem).")
+PROPS["C05"]["level_text"] += (" C05d (40 theorems, with an inventory of every kind and dispatcher case against its round-trip theorem): the remaining gaps — "
+    "experimenter errors through Parse, the four stats-request bodies, the embedded element codecs, all 28 leaf action kinds of both dispatch tables in ONE list "
+    "(as apply-actions, as a bucket's list, inside a flow-mod through Parse), vendor messages without payload — and the precise limits as proved counterexamples "
+    "(unknown experimenter / multipart types never parse, a bare hello element header loses what follows it, packet-in and hello swallow bytes behind the message).")
+PROPS["C06"]["level_text"] += (" C06d (80 theorems): for 70 kinds with a constant, stored or header-computed size the model's Len() equals the definition regenerated from the current Go Len() body (tie T1) for every value.")
 PROPS["C02"]["level_text"] += (" C02c: the REAL specification walker (Spec.walk…, incl. minimum lengths, zero padding, alignment, type codes) accepts the model's "
     "encoding and returns one subtree per child, for every hello (any list of version-bitmap elements; whole message through Spec.walk), TLV-table-mod (any list "
     "of maps), any list of bundle properties, and per action kind / bucket / group-mod / packet-out as far as the file states.")
